@@ -18,6 +18,15 @@ pub struct CaseEval {
     pub excluded: Option<String>,
     pub nontrivial: bool,
     pub hist: BTreeMap<String, u64>,
+    /// additional evaluations performed inside this case (inner enumerations)
+    pub extra_evals: u64,
+    /// hashes of distinct non-trivial inner cases
+    pub nontrivial_hashes: Vec<u64>,
+    /// concrete failing case to store in the replay file instead of the generated value
+    pub replay_override: Option<Value>,
+    pub sample: Option<Value>,
+    /// hits of findings listed as `known` in known_findings.json: (signature, what, replay case)
+    pub known_hits: Vec<(String, Value)>,
 }
 
 #[derive(Clone, Debug, Serialize, Deserialize, Default)]
@@ -41,6 +50,9 @@ pub struct WorkerReport {
     pub inconclusive_samples: Vec<String>,
     pub wall_s: f64,
     pub exhaustive: bool,
+    /// signature -> (count, one replay path)
+    #[serde(default)]
+    pub known_hits: BTreeMap<String, (u64, String)>,
 }
 
 #[derive(Clone, Debug)]
@@ -51,6 +63,7 @@ pub struct WorkerArgs {
     pub total: u32,
     pub seed: u64,
     pub cases: u32,
+    pub shrink_iters: u32,
 }
 
 pub fn hash_str(s: &str) -> u64 {
@@ -90,7 +103,7 @@ where
     let config = Config {
         cases: args.cases,
         failure_persistence: None,
-        max_shrink_iters: 600,
+        max_shrink_iters: std::env::var("VERIF_SHRINK_ITERS").ok().and_then(|s| s.parse().ok()).unwrap_or(args.shrink_iters),
         max_shrink_time: 0,
         max_global_rejects: 10,
         ..Config::default()
@@ -107,6 +120,7 @@ where
         inc_samples: Vec<String>,
         failed: bool,
         last_failure: Option<(String, String)>,
+        known: BTreeMap<String, (u64, Option<Value>)>,
     }
     let acc = RefCell::new(Acc {
         evaluations: 0,
@@ -119,12 +133,26 @@ where
         inc_samples: vec![],
         failed: false,
         last_failure: None,
+        known: BTreeMap::new(),
     });
     let result = runner.run(&strategy, |case| {
         let ev = eval(&case);
         let mut a = acc.borrow_mut();
         if !a.failed {
-            a.evaluations += 1;
+            a.evaluations += 1 + ev.extra_evals;
+            a.hashes.extend(ev.nontrivial_hashes.iter().copied());
+            for (sig, case) in &ev.known_hits {
+                let e = a.known.entry(sig.clone()).or_insert((0, None));
+                e.0 += 1;
+                if e.1.is_none() {
+                    e.1 = Some(case.clone());
+                }
+            }
+            if let Some(smp) = &ev.sample {
+                if a.samples.len() < 3 {
+                    a.samples.push(smp.clone());
+                }
+            }
             for (k, v) in &ev.hist {
                 *a.hist.entry(k.clone()).or_insert(0) += v;
             }
@@ -167,13 +195,22 @@ where
     report.samples.extend(a.samples.into_iter().take(3));
     report.inconclusive += a.inconclusive;
     report.inconclusive_samples.extend(a.inc_samples);
+    for (sig, (n, case)) in a.known {
+        let e = report.known_hits.entry(sig.clone()).or_insert((0, String::new()));
+        e.0 += n;
+        if e.1.is_empty() {
+            if let Some(c) = case {
+                e.1 = write_replay(&args.id, &c, "known-finding", &sig);
+            }
+        }
+    }
     if let Err(e) = result {
         match e {
             TestError::Fail(_, value) => {
                 // re-evaluate the minimal case to get its own clause/detail
                 let ev = eval(&value);
-                let (clause, detail) = ev.failure.or(a.last_failure).unwrap_or(("unknown".into(), "shrunk case no longer fails".into()));
-                let v = serde_json::to_value(&value).unwrap();
+                let (clause, detail) = ev.failure.clone().or(a.last_failure).unwrap_or(("unknown".into(), "shrunk case no longer fails".into()));
+                let v = ev.replay_override.clone().unwrap_or_else(|| serde_json::to_value(&value).unwrap());
                 let path = write_replay(&args.id, &v, &clause, &detail);
                 report.failures.push(FailureReport { signature: clause.clone(), clause, detail, replay: path });
             }
@@ -210,6 +247,12 @@ pub struct KnownFinding {
     pub commit: String,
 }
 
+/// Is a finding with this exact signature listed as `known` (not fixed) for the property?
+pub fn is_known(property: &str, signature: &str) -> bool {
+    static K: std::sync::OnceLock<Vec<KnownFinding>> = std::sync::OnceLock::new();
+    K.get_or_init(load_known_findings).iter().any(|k| k.property == property && k.status == "known" && k.signature == signature)
+}
+
 pub fn load_known_findings() -> Vec<KnownFinding> {
     let p = format!("{VERIF_DIR}/known_findings.json");
     match std::fs::read_to_string(&p) {
@@ -236,7 +279,7 @@ pub struct CheckMeta {
     pub workers: u32,
 }
 
-pub fn run_parent(meta: &CheckMeta, tier: &str, seed: u64) -> i32 {
+pub fn run_parent(meta: &CheckMeta, tier: &str, seed: u64, regress_replays: usize) -> i32 {
     let t0 = Instant::now();
     let cases_total = if tier == "thorough" { meta.thorough_cases } else { meta.quick_cases };
     let cases_total = std::env::var("VERIF_CASES").ok().and_then(|s| s.parse().ok()).unwrap_or(cases_total);
@@ -275,6 +318,13 @@ pub fn run_parent(meta: &CheckMeta, tier: &str, seed: u64) -> i32 {
                     agg.samples.extend(r.samples.into_iter().take(2));
                 }
                 agg.failures.extend(r.failures);
+                for (sig, (n, path)) in r.known_hits {
+                    let e = agg.known_hits.entry(sig).or_insert((0, String::new()));
+                    e.0 += n;
+                    if e.1.is_empty() {
+                        e.1 = path;
+                    }
+                }
                 agg.inconclusive += r.inconclusive;
                 agg.inconclusive_samples.extend(r.inconclusive_samples.into_iter().take(2));
                 all_exhaustive &= r.exhaustive;
@@ -314,7 +364,8 @@ pub fn run_parent(meta: &CheckMeta, tier: &str, seed: u64) -> i32 {
             "inconclusive_samples": agg.inconclusive_samples.iter().take(4).collect::<Vec<_>>(),
             "exhaustive": all_exhaustive && agg.evaluations > 0 && meta.level == "model_checking",
             "worker_processes": workers,
-            "known_findings_hit": known_hits.iter().map(|(k, f)| json!({"what": k.what, "replay": f.replay})).collect::<Vec<_>>(),
+            "regression_replays_passed": regress_replays,
+            "known_findings_hit": known_hits.iter().map(|(k, f)| json!({"what": k.what, "replay": f.replay})).chain(agg.known_hits.iter().map(|(sig, (n, path))| json!({"signature": sig, "hits": n, "replay": path}))).collect::<Vec<_>>(),
         },
         "assumptions": meta.assumptions,
         "wall_s": wall,
@@ -335,6 +386,10 @@ pub fn run_parent(meta: &CheckMeta, tier: &str, seed: u64) -> i32 {
     );
     for (k, _f) in &known_hits {
         println!("KNOWN-FINDING: property={} {}", meta.id, k.what);
+    }
+    for (sig, (n, path)) in &agg.known_hits {
+        let what = known.iter().find(|k| k.property == meta.id && &k.signature == sig).map(|k| k.what.clone()).unwrap_or_else(|| sig.clone());
+        println!("KNOWN-FINDING: property={} {} [{} hit(s) this run, e.g. replay={}]", meta.id, what, n, path);
     }
     if !violations.is_empty() {
         for v in &violations {
